@@ -43,7 +43,7 @@ CLAIMS = {
          "Run-time call order is not decided.", "DESIGN.md §3 C10", "reaching-condition analysis + origin-term rules on go/ssa"),
  "C12": ("Necessary structural conditions for all histories: the previous output is withheld from the loader (every ParseFile dominated by SameFile(output)==false), the output path flows only to os.Stat / goimports' name / WriteFile's name, load errors are never consulted, single whole-file write. "
          "Behaviour of `go list` on a broken file at that path is external and not decided.", "DESIGN.md §3 C12", "reaching-condition analysis + use enumeration (taint by referrers) on go/ssa"),
- "C14": ("A closed list of panic/hang/exit-path classes decided for all inputs, each with enumerated accepted idioms (tuple indexing, split/submatch indexing, discarded errors, nil packages, unchecked assertions, callback-assigned pointers, MustCompile, loop variance, error propagation, all-or-nothing parsing, stderr+exit, positioned diagnostics). "
+ "C14": ("A closed list of panic/hang/exit-path classes decided for all inputs, each with enumerated accepted idioms (tuple indexing, split/submatch indexing, discarded errors, nil packages, unchecked assertions, callback-assigned pointers, MustCompile, loop variance, well-founded recursion (guarded by-value struct descents; a table of confirmed cycles), errors captured by iteration callbacks, error propagation, all-or-nothing parsing, stderr+exit, positioned diagnostics, :literal texts parsed as expressions when read). "
          "General panic-freedom is not decidable and not claimed.", "DESIGN.md §3 C14", "interval facts from reaching conditions + inventories with exception tables on go/ssa"),
  "C15": ("Complete effect inventory of module→external calls decided for all inputs and flags: the only file-mutating calls are the output write and the log open, the write is dominated by dryRun==false and the nil-error edges, no error exit after a successful write, path is Config.Output unmodified. "
          "Effects of external programs (go list, goimports) are not decided.", "DESIGN.md §3 C15", "effect table / who-may-call inventory + reaching-condition analysis on go/ssa"),
